@@ -555,6 +555,9 @@ def c11(ctx):
         obs.append(Ob("R-WHO", mkkey("R-WHO", g.path, FTRUNCATE, 0, "presize"), has, g.loc(), g.path,
                       "allocate_file sizes the destination with ftruncate: %s" % has))
     obs += truncate_then_size(fx)
+    import p_gate as _pg
+    obs += _pg.extents_forwarded(fx)
+    obs += [o for o in _pg.helpers_always_apply(fx) if "allocate_file" in o.key]
     # parfile: whole-file copy only when not sparse; sparse path copies segments found by SEEK_DATA/HOLE
     f = fx.fn(COPY_FILE)
     PS = "libfs::linux::probably_sparse"
@@ -648,6 +651,18 @@ def parblock_ranges(fx, b):
             k += 1
     if k == 0:
         obs.append(anchor_ob("R-ORDER", "no whole-file queue site found in queue_file_blocks"))
+    # an unsupported extent map (None) must lead to a whole-file queue: the Option is matched, not defaulted away
+    whole_blocks = set()
+    for (f, bi) in whole_sites:
+        if f.path == b.path:
+            whole_blocks.add(bi)
+        else:
+            whole_blocks |= set(b2 for b2, t in b.calls() if q.names(t)[1] == f.path)
+    okn = bool(none_regions) and all(any(wb in r for wb in whole_blocks) for r in none_regions)
+    obs.append(Ob("R-ORDER", mkkey("R-ORDER", b.path, "map_extents==None", 0, "no-extents-whole-file"), okn, b.loc(), b.path,
+                  "when extent mapping is unsupported (None) the whole file is queued: %s" % okn,
+                  None if okn else dict(none_regions=[sorted(r)[:6] for r in none_regions],
+                                        note="the Option from map_extents is not matched, or its None arm queues nothing")))
     return obs
 
 
